@@ -206,3 +206,100 @@ def chkC20 (bufLen : Nat) (st : St) (adv : Nat) : Bool :=
   adv ≤ bufLen && (match st with | .c n => adv == n | _ => true)
 
 end Hx
+
+namespace Hx
+
+/-! ### C02 — streaming consistency, on a pair (observation of a buffer, observation of an
+extension of that buffer), same configuration and capacity -/
+
+/-- a field reported with the shorter buffer has the same value with the longer one -/
+def fieldKept {α : Type} [BEq α] (isNone : α → Bool) (short long : α) : Bool :=
+  isNone short || short == long
+
+def chkC02 (short long : Obs) : Bool :=
+  match short.st with
+  | .c _ => long.st == short.st && long.spans == short.spans && long.nums == short.nums &&
+            long.hdrs == short.hdrs
+  | .e _ => long.st == short.st
+  | .p =>
+    (List.zip short.spans long.spans).all (fun (a, b) => fieldKept (· == Sp.none) a b) &&
+    (List.zip short.nums long.nums).all (fun (a, b) => fieldKept (· == none) a b) &&
+    short.spans.length == long.spans.length && short.nums.length == long.nums.length
+  | .crash => false
+
+def chkC02chunk (short long : ChunkObs) : Bool :=
+  match short.st with
+  | .c _ => long == short
+  | .e _ => long.st == short.st
+  | .p => true
+  | .crash => false
+
+/-! ### C15 — conservative extension / kind separation, on a pair of configurations -/
+
+/-- the options a message kind reads -/
+def Config.relevant (k : Kind) (c : Config) : List Bool :=
+  match k with
+  | .req => [c.multiReq, c.spaceBeforeFirst, c.ignReq]
+  | .resp => [c.spacesAfterNameResp, c.foldResp, c.multiResp, c.spaceBeforeFirst, c.ignResp]
+  | .hdrs => []
+
+/-- `b` is `a` with leading SPs dropped (as spans of the same buffer) -/
+def reasonStripped (buf : List Byte) (a b : Sp) : Bool :=
+  match a.bytes buf, b.bytes buf with
+  | some x, some y =>
+    y == x.dropWhile (· == SP) &&
+    (match a, b with
+     | .at oa la, .at ob lb => oa + la == ob + lb
+     | _, _ => true)
+  | _, _ => false
+
+/-- observations of the same call under configurations `ca` and `cb` -/
+def chkC15 (k : Kind) (buf : List Byte) (ca cb : Config) (oa ob : Obs) : Bool :=
+  -- kind separation: configurations that agree on the options this kind reads give identical results
+  (if ca.relevant k == cb.relevant k then
+     oa.st == ob.st && oa.spans == ob.spans && oa.nums == ob.nums && oa.hdrs == ob.hdrs
+   else true) &&
+  -- conservative extension: what the default configuration accepts, every configuration accepts
+  -- identically (responses: the reason may lose leading SPs under the multi-space option)
+  (if ca == Config.default && oa.st.isC then
+     ob.st == oa.st && ob.nums == oa.nums && ob.hdrs == oa.hdrs &&
+     (match k with
+      | .resp =>
+        if cb.multiResp then reasonStripped buf (oa.spans.getD 0 .none) (ob.spans.getD 0 .none)
+        else ob.spans == oa.spans
+      | _ => ob.spans == oa.spans)
+   else true)
+
+/-! ### C16 — entry points agree -/
+
+/-- status, fields and exposed headers are the same -/
+def sameResult (a b : Obs) : Bool :=
+  a.st == b.st && a.spans == b.spans && a.nums == b.nums && a.hdrs == b.hdrs
+
+def chkC16 (obs : List Obs) : Bool :=
+  match obs with
+  | [] => true
+  | o :: r => r.all (sameResult o)
+
+def Sp.shift (d : Nat) : Sp → Sp
+  | .at o l => .at (o + d) l
+  | s => s
+
+/-- `parse_headers(h)` agrees with the header part of a message `line ++ h` whose start line has
+length `d`: same status up to the offset shift, same headers up to the shift -/
+def chkC16rel (d : Nat) (h msg : Obs) : Bool :=
+  (match h.st, msg.st with
+   | .c n, .c m => m == n + d
+   | .p, .p => true
+   | .e a, .e b => a == b
+   | _, _ => false) &&
+  msg.hdrs == h.hdrs.map (fun x => ⟨x.name.shift d, x.value.shift d⟩)
+
+/-! ### C18 — history independence: probe on a reused value vs. on a fresh one -/
+
+def chkC18 (reused fresh : Obs) : Bool :=
+  reused.st == fresh.st &&
+  (if fresh.st.isC then reused.spans == fresh.spans && reused.nums == fresh.nums && reused.hdrs == fresh.hdrs
+   else true)
+
+end Hx
